@@ -10,6 +10,7 @@
 (*      precede the query goal in the same query                                             *)
 (*   M  the clauses are dynamic and the query is run by the vanilla meta-interpreter MI      *)
 (*      below (itself a program executed by the abstract machine) through clause/2           *)
+(*      (the replay also runs M over the clauses that mode A added with assertz/1: "MA")     *)
 (*   Q  the query goal passed to call/1;  N  the query goal p(T) written call(p, T)          *)
 (*   B  every clause body Body replaced by call(Body): goal placement inside call/1.         *)
 (* TLC decides (invariant Agree) that the A-semantics of the modes coincide: A, M, Q, N      *)
